@@ -1,7 +1,11 @@
 (* Theorems about the lossy-channel specification (Spec/Lossy.v) alone: order, completeness
    while never lapped, report and restart when lapped.  No byte memory here. *)
-Require Import V.Base.MachineInt V.Generated.GenConsts V.Model.Broadcast V.Spec.Lossy
-               V.Proofs.BroadcastMem V.Proofs.BroadcastInv.
+Require Import V.Base.MachineInt.
+Require Import V.Generated.GenConsts.
+Require Import V.Model.Broadcast.
+Require Import V.Spec.Lossy.
+Require Import V.Proofs.BroadcastMem.
+Require Import V.Proofs.BroadcastInv.
 From Coq Require Import ZifyBool Znumtheory.
 Open Scope Z_scope.
 
